@@ -137,5 +137,7 @@ func msToTime(ms int64) time.Time {
 }
 
 func timeToMS(t time.Time) int64 {
-	return t.UnixNano() / int64(time.Millisecond)
+	// Don't go through UnixNano: 64-bit nanoseconds only
+	// cover the years 1678 to 2262.
+	return t.Unix()*1000 + int64(t.Nanosecond())/int64(time.Millisecond)
 }
